@@ -179,7 +179,7 @@ inductive FOut (α : Type) where
   | adapter (a : α)
   | none
   | raise (e : Exc)
-  deriving DecidableEq
+  deriving DecidableEq, Repr
 
 /-- A factory table: call ordinal within this `adapt` call, offer, adaptee. -/
 abbrev Factory (α : Type) := Nat → Offer → α → FOut α
@@ -198,7 +198,7 @@ inductive WalkRes (α : Type) where
   | done (a : α)
   | failed
   | raised (e : Exc)
-  deriving DecidableEq
+  deriving DecidableEq, Repr
 
 /-- "Walk path and create adapters" (:279-291).  The trace is the list of factory
 calls made so far in this `adapt` call; its length is the next call ordinal. -/
@@ -222,7 +222,7 @@ inductive Res (α : Type) where
   | raised (e : Exc)
   | notFound
   | outOfFuel
-  deriving DecidableEq
+  deriving DecidableEq, Repr
 
 /-- The `for mro_distance, offer in edges:` loop for the popped entry `w`
 (:274-303).  `some r` = the function returned / raised. -/
@@ -280,7 +280,7 @@ inductive Out (α : Type) where
   | adapted (path : List Offer) (a : α)    -- the adapter built along `path`
   | default                                -- the `default` argument
   | error (e : Exc)
-  deriving DecidableEq
+  deriving DecidableEq, Repr
 
 /-- `if result is None:` (:135-141). -/
 def noneResult (hasDefault : Bool) : Out α :=
@@ -316,7 +316,7 @@ inductive VOut (α : Type) where
   | adapted (path : List Offer) (a : α)
   | default                                -- `default_value_for(trait, obj, name)`
   | error (e : Exc)
-  deriving DecidableEq
+  deriving DecidableEq, Repr
 
 /-- `mode` = `AdaptMap[adapt]` (0 'no', 1 'yes', 2 'default'); `isInst` =
 `isinstance(value, klass)`; `ad` = the outcome of `adapt(value, klass, None)`. -/
